@@ -3,6 +3,7 @@ module verif/harness
 go 1.21
 
 require (
+	cosmossdk.io/api v0.3.1
 	cosmossdk.io/math v1.3.0
 	github.com/cometbft/cometbft v0.37.5
 	github.com/cometbft/cometbft-db v0.11.0
@@ -19,7 +20,6 @@ require (
 )
 
 require (
-	cosmossdk.io/api v0.3.1 // indirect
 	cosmossdk.io/core v0.5.1 // indirect
 	cosmossdk.io/depinject v1.0.0-alpha.4 // indirect
 	cosmossdk.io/errors v1.0.1 // indirect
